@@ -160,9 +160,11 @@ Definition spec_C07 (c : list file_result * list file_result) : bool :=
        validation returned *)
     let iow := match ai_item a with ItInterface i => i_oneway i | _ => false end in
     let src_ms := methods_of (ai_item a) in
-    let ms := methods_of (ai_item a') in
+    (* the categories are those of the SPECIFIED resolution of the written names (a user type that shares its simple name with a
+       built-in is what its import or forward declaration says it is) *)
+    let ms := methods_of (ai_item (sp_tree (collect_item_keys (fst c)) a)) in
     let args := flat_map (fun '(m0, m) => map (fun x => (iow || m_oneway m0, x)) (m_args m)) (combine src_ms ms) in
-    Nat.eqb (length src_ms) (length ms) &&
+    Nat.eqb (length src_ms) (length (methods_of (ai_item a'))) && Nat.eqb (length src_ms) (length ms) &&
     forallb (fun d => dkind_eqb (d_kind d) DError && is_empty (d_related d)) dd &&
     forallb (fun '(ow, x) =>
                Nat.eqb (length (filter (fun d => range_eqb (d_range d) (where_ x)) dd))
@@ -320,6 +322,10 @@ Definition spec_C17_names (c : tcase) : bool :=
 
 (* C17 on V lines: every reference resolved to a defined item carries the key of a file that defines such an item *)
 Definition spec_C17_refs (c : list file_result * list file_result) : bool :=
+  (* a reference that the scoping rules resolve to an item is resolved, to that key (and nothing else is) *)
+  for_files (fun a a' ds0 ds =>
+    list_eqb tkind_eqb (map ty_kind (all_types_pre (ai_item a')))
+                       (map ty_kind (all_types_pre (ai_item (sp_tree (collect_item_keys (fst c)) a))))) c &&
   let '(p, v) := c in
   let trees := flat_map (fun fr => match fr_ast fr with Some a => [a] | None => [] end) v in
   forallb (fun a =>
